@@ -35,7 +35,8 @@ TRUST = [
     "pandas DataFrame.apply(axis=0) calls get_Rj once per Monte-Carlo column, in column order (checked on every simulation: "
     "num_mc calls of the right size and p)",
     "excluded configurations: subsample = 0, num_mc = 0, levels outside [0,1], labels other than 0/1, repeated or unknown names in "
-    "rates_tracked, parallelize=True (thread scheduling of the same function body)",
+    "rates_tracked; parallelize=True is not modelled (thread scheduling of the same function body) but tied to the serial branch by "
+    "twin runs on the real class under a content-addressed replacement of np.random.binomial (draws depend on (seed, p, size, column) only)",
     "auxiliary semi-private observable: _r_stat[samples_since_reset] (the four statistics at the current index) is read after every update "
     "when present and compared with the model (all four rates) and with the specification's closed form (tracked rates; every step in the "
     "long pure runs, on tested steps elsewhere); older per-index history entries are not compared",
@@ -396,6 +397,96 @@ EXH_CFGS = [
 ]
 
 
+
+# ---------------------------------------------------------------- serial / parallel twins (parallelize=True)
+class CATap:
+    """
+    Content-addressed replacement of np.random.binomial for the serial/parallel twin runs: the k-th draw a thread
+    makes for (p, size) within one update depends only on (update seed, p, size, k mod num_mc), so the two joblib
+    threads of parallelize=True cannot perturb one another's draws and both modes are deterministic functions of
+    the history.  Draws are still numpy Bernoulli samples of the requested p.
+    """
+    def __init__(self, num_mc):
+        import threading
+        self.num_mc, self.seed, self.counters, self.lock, self.orig = num_mc, 0, {}, threading.Lock(), None
+        self.ident = threading.get_ident
+
+    def begin(self, seed):
+        self.seed, self.counters = seed, {}
+
+    def install(self):
+        self.orig = np.random.binomial
+        tap = self
+
+        def binomial(n, p, size=None):
+            key = (tap.ident(), float(p), -1 if size is None else int(size))
+            with tap.lock:
+                k = tap.counters.get(key, 0)
+                tap.counters[key] = k + 1
+            rs = np.random.RandomState(H(tap.seed, key[1], key[2], k % tap.num_mc) % (2 ** 32))
+            return rs.binomial(n, p, size)
+
+        np.random.binomial = binomial
+
+    def uninstall(self):
+        if self.orig is not None:
+            np.random.binomial = self.orig
+            self.orig = None
+
+
+def parallel_twins(ctx, LFR, outer_tap):
+    """
+    parallelize=True must be the same detector as parallelize=False (the flag only selects how the per-rate test
+    bodies are scheduled): in particular only the *tracked* rates are tested.  The serial branch is tied to the Lean
+    model by the correspondence above; the parallel branch is tied to the serial one here, on the real class,
+    observable by observable after every update.
+    """
+    rng = np.random.default_rng(ctx.seed + 77)
+    n_cases = 6 if ctx.quick else 60
+    subsets = [[], ["tnr"], ["tpr"], ["ppv", "npv"], ["tnr", "ppv"], ["npv"], ["tpr", "tnr", "ppv"], RATES]
+    outer_tap.uninstall()
+    try:
+        for i in range(n_cases):
+            cfg = random_cfg(rng, i)
+            cfg["tracked"] = list(subsets[i % len(subsets)])
+            cfg["num_mc"], cfg["burn_in"], cfg["round_val"] = 15, int(rng.choice([0, 5, 20])), 4
+            n = int(rng.choice([60, 100, 160]))
+            seq = gen_sequence(rng, n)
+            tap = CATap(cfg["num_mc"])
+            tap.install()
+            try:
+                dets = []
+                for par in (False, True):
+                    try:
+                        dets.append(LFR(time_decay_factor=cfg["eta"], warning_level=cfg["warn"], detect_level=cfg["detect"],
+                                        burn_in=cfg["burn_in"], num_mc=cfg["num_mc"], subsample=cfg["subsample"],
+                                        rates_tracked=list(cfg["tracked"]), parallelize=par, round_val=cfg["round_val"]))
+                    except Exception as ex:
+                        dets.append("EXC:" + type(ex).__name__)
+                drifts = 0
+                for k, (yt, yp) in enumerate(seq):
+                    seed = H(ctx.seed, "par", i, k)
+                    obs = []
+                    for d in dets:
+                        tap.begin(seed)
+                        o = impl_update(Tap(), d, cfg, yt, yp, seed)
+                        obs.append((o["state"], o["recs"], o["total"], o["since"], o["nstates"], o["last"]))
+                    ctx.case(("par", i, k), k + 1 > cfg["burn_in"])
+                    drifts += obs[0][0] == "D"
+                    if obs[0] != obs[1]:
+                        ctx.fail(signature={"clause": "parallelize-is-only-scheduling"},
+                                 what="LinearFourRates(parallelize=True) reports something else than parallelize=False on the same history and draws "
+                                      "(the flag must only change how the per-rate tests are scheduled; untracked rates are never tested)",
+                                 config=cfg, history=[list(x) for x in seq[:k + 1]], step=k, serial=list(obs[0]), parallel=list(obs[1]))
+                        break
+                ctx.count("par.cases")
+                ctx.count("par.drifts", drifts)
+                ctx.count("par.tracked=%d" % len(cfg["tracked"]))
+            finally:
+                tap.uninstall()
+    finally:
+        outer_tap.install()
+
 # ---------------------------------------------------------------- run
 def run(ctx):
     from menelaus.concept_drift import LinearFourRates as LFR
@@ -485,6 +576,9 @@ def _run(ctx, LFR, tap):
         ctx.count("long.cases")
         ctx.count("long.tested_steps", sum(1 for k in range(len(tr)) if k + 1 > cfg["burn_in"]))
         ctx.count("long.state.D", sum(1 for o in tr if o["state"] == "D"))
+
+    # ---- C3. parallelize=True is the same detector (relation on the real class)
+    parallel_twins(ctx, LFR, tap)
 
     # ---- D. thorough: statistical sanity test of the bounds (a test, not a theorem)
     if not quick:
